@@ -5,7 +5,7 @@ from core import World, Line, hx
 from gen import Gen
 from suites import run_suite
 
-LEAN_MODULES = ['GoSnaps.Props.C13Difflib', 'GoSnaps.Props.C13', 'GoSnaps.Props.Tie.Diff', 'GoSnaps.Props.Tie.Range', 'GoSnaps.Props.Tie.Flows', 'GoSnaps.Props.Tie.DiffIO', 'GoSnaps.Props.Tie.SingleLine', 'GoSnaps.Props.Tie.SingleLineC02', 'GoSnaps.Props.Tie.DifflibGen', 'GoSnaps.Props.Tie.DifflibGen2']
+LEAN_MODULES = ['GoSnaps.Props.C13Difflib', 'GoSnaps.Props.C13', 'GoSnaps.Props.Tie.Diff', 'GoSnaps.Props.Tie.Range', 'GoSnaps.Props.Tie.Flows', 'GoSnaps.Props.Tie.DiffIO', 'GoSnaps.Props.Tie.SingleLine', 'GoSnaps.Props.Tie.SingleLineC02', 'GoSnaps.Props.Tie.DifflibGen', 'GoSnaps.Props.Tie.DifflibGen2', 'GoSnaps.Props.Tie.DifflibGen3']
 
 
 def parse_ops(s):
